@@ -637,4 +637,20 @@ theorem tailBad_false_iff (l : List Byte) : tailBad l = false ↔ EndsRune l := 
     · decide
     · exact tailBad_valid x w hw
 
+/-! ### Well-formed UTF-8 -/
+
+/-- Well-formed UTF-8: a sequence of complete characters. -/
+inductive Utf8 : List Byte → Prop
+  | nil : Utf8 []
+  | cons (r p : List Byte) : validRuneB r = true → Utf8 p → Utf8 (r ++ p)
+
+/-- Every valid UTF-8 payload meets the hypothesis of the two equalities. -/
+theorem endsRune_of_utf8 {p : List Byte} (h : Utf8 p) : EndsRune p := by
+  induction h with
+  | nil => exact Or.inl rfl
+  | cons r p hr _ ih =>
+    rcases ih with rfl | ⟨q, r', rfl, hr'⟩
+    · exact Or.inr ⟨[], r, by simp, hr⟩
+    · exact Or.inr ⟨r ++ q, r', by simp, hr'⟩
+
 end Redact
